@@ -137,6 +137,13 @@ fn main() {
         CASE_START_CPU_MS.store(cpu_ms().max(1), std::sync::atomic::Ordering::Relaxed);
         let before = obs.violations.len();
         let t_case = cpu_ms();
+        if let Some(b) = mon.boot_mut() {
+            let rec = util::fnv1a(&idx.to_le_bytes()) & 4 != 0;
+            b.set_recording_enabled(rec);
+            if rec {
+                obs.count("cases_with_recording_on");
+            }
+        }
         let r = catch(|| mon.run_case(idx, &mut obs));
         let took = cpu_ms().saturating_sub(t_case);
         if took > 1000 {
